@@ -594,6 +594,7 @@ compact_theta_sketch_alloc<A> compact_theta_sketch_alloc<A>::deserialize_v1(
   const auto num_entries = read<uint32_t>(is);
   read<uint32_t>(is); //unused
   const auto theta = read<uint64_t>(is);
+  if (!is.good()) throw std::runtime_error("error reading from std::istream");
   std::vector<uint64_t, A> entries(num_entries, 0, allocator);
   bool is_empty = (num_entries == 0) && (theta == theta_constants::MAX_THETA);
   if (!is_empty) read(is, entries.data(), sizeof(uint64_t) * entries.size());
@@ -616,6 +617,7 @@ compact_theta_sketch_alloc<A> compact_theta_sketch_alloc<A>::deserialize_v2(
   } else if (preamble_longs == 2) {
     const uint32_t num_entries = read<uint32_t>(is);
     read<uint32_t>(is); // unused
+    if (!is.good()) throw std::runtime_error("error reading from std::istream");
     std::vector<uint64_t, A> entries(num_entries, 0, allocator);
     if (num_entries == 0) {
       return compact_theta_sketch_alloc(true, true, seed_hash, theta_constants::MAX_THETA, std::move(entries));
@@ -627,6 +629,7 @@ compact_theta_sketch_alloc<A> compact_theta_sketch_alloc<A>::deserialize_v2(
     const uint32_t num_entries = read<uint32_t>(is);
     read<uint32_t>(is); // unused
     const auto theta = read<uint64_t>(is);
+    if (!is.good()) throw std::runtime_error("error reading from std::istream");
     bool is_empty = (num_entries == 0) && (theta == theta_constants::MAX_THETA);
     std::vector<uint64_t, A> entries(num_entries, 0, allocator);
     if (is_empty) {
@@ -662,6 +665,7 @@ compact_theta_sketch_alloc<A> compact_theta_sketch_alloc<A>::deserialize_v3(
       if (preamble_longs > 2) theta = read<uint64_t>(is);
     }
   }
+  if (!is.good()) throw std::runtime_error("error reading from std::istream");
   std::vector<uint64_t, A> entries(num_entries, 0, allocator);
   if (!is_empty) read(is, entries.data(), sizeof(uint64_t) * entries.size());
   const bool is_ordered = flags_byte & (1 << flags::IS_ORDERED);
@@ -685,6 +689,7 @@ compact_theta_sketch_alloc<A> compact_theta_sketch_alloc<A>::deserialize_v4(
   for (unsigned i = 0; i < num_entries_bytes; ++i) {
     num_entries |= read<uint8_t>(is) << (i << 3);
   }
+  if (!is.good()) throw std::runtime_error("error reading from std::istream");
   vector_bytes buffer(entry_bits, 0, allocator); // block of 8 entries takes entry_bits bytes
   std::vector<uint64_t, A> entries(num_entries, 0, allocator);
 
